@@ -27,7 +27,7 @@ FILES = {
     "bec2format/configid.py": ["C12", "C11", "C14"],
     "bec2format/bytes_reader.py": ["C05", "C13", "C01", "C04", "C14"],
     "bec2format/crypto.py": ["C08", "C09", "C19", "C07", "C06", "C16"],
-    "appnotes/register_crypto_plugin/__init__.py": ["C16", "C09", "C19", "C08", "C06", "C07"],
+    "appnotes/register_crypto_plugin/__init__.py": ["C16", "C09", "C19", "C08", "C06", "C07", "C14"],
     "appnotes/register_crypto_plugin/pyaes/aes.py": ["C16"],
     "appnotes/register_crypto_plugin/pyaes/blockfeeder.py": ["C16"],
 }
